@@ -304,6 +304,23 @@ pub fn get_jaccard_index_estimate<F: Float + std::fmt::Debug>(
 
 //===========================================================================================
 
+// verification hooks: compiled only with `--cfg probminhash_verif`
+#[cfg(probminhash_verif)]
+impl<F: Float + SampleUniform + std::fmt::Debug, T: Hash, H: Hasher + Default>
+    SuperMinHash<F, T, H>
+{
+    /// (q, p, b, item_rank, a_upper)
+    pub fn verif_state(&self) -> (Vec<i64>, Vec<usize>, Vec<i64>, usize, usize) {
+        (
+            self.q.clone(),
+            self.p.clone(),
+            self.b.clone(),
+            self.item_rank,
+            self.a_upper,
+        )
+    }
+}
+
 #[cfg(test)]
 mod tests {
     use super::*;
